@@ -244,6 +244,10 @@ class YAML(Filetype):
         except ValueError as ve:
             # YAML values that have no node type (timestamps, sets): json.build_tree refuses them
             return f'Error parsing {os.path.basename(path)}: {ve!s}'
+        except (LookupError, AttributeError) as e:
+            # PyYAML's constructors for explicitly tagged scalars (`!!int`, `!!bool tru`, `!!timestamp 2001-12-`) index
+            # into the scalar and look it up without validating it first
+            return f'Error parsing {os.path.basename(path)}: malformed scalar ({type(e).__name__}: {e!s})'
 
     def get_default_formatter(self) -> YAMLFormatter:
         return YAMLFormatter.DEFAULT_INSTANCE
